@@ -31,6 +31,7 @@ type Case struct {
 	X    string `json:"x,omitempty"`     // pow: base (decimal int64)
 	Y    int    `json:"y,omitempty"`     // pow: exponent
 	Rdx  *int64 `json:"radix,omitempty"` // pint: radix argument (absent = undefined)
+	Imp  int    `json:"imp,omitempty"`   // str: 1 = s is a Go string given to vm.Set, 2 = VerifNewImported (lazily scanned); 0 = built in JS
 }
 
 func bitsOf(s string) uint64 { u, _ := strconv.ParseUint(s, 10, 64); return u }
@@ -73,7 +74,12 @@ func coqNum(v goja.Value) (string, string, bool) {
 		u, _ := strconv.ParseUint(rep[6:], 16, 64)
 		f := math.Float64frombits(u)
 		if math.IsNaN(f) {
-			u = 0x7FF8000000000000 // all NaNs are one token
+			if u != math.Float64bits(math.NaN()) {
+				// goja has ONE NaN Value (_NaN); a valueFloat holding another NaN bit pattern hashes differently and
+				// is a distinct Map/Set key: not a canonical Number
+				return "", "float:nan-noncanonical:" + rep[6:], false
+			}
+			u = 0x7FF8000000000000 // the model's NaN token
 			rep = "float:nan"
 		}
 		return fmt.Sprintf("(F %d)", u), rep, true
@@ -96,7 +102,7 @@ func coqOfFloat(f float64) string { // canonical operand as jsnum
 }
 
 var unScripts = map[string][]string{
-	"UNeg":    {"-a", "(function(){var x=a; return -x})()"},
+	"UNeg":    {"-a", "(function(){var x=a; return -x})()", "(function(){var c=0; var o={valueOf:function(){c++; return a}}; var r=-o; return c===1 ? r : \"valueOf called \"+c+\" times\"})()"},
 	"UPlus":   {"+a", "Number(a)"},
 	"UInc":    {"(function(){var x=a; x++; return x})()", "(function(){var x=a; var y=++x; return y})()", "(function(){var o={v:a}; o.v++; return o.v})()", "(function(){var x=a; var y=x++; return x})()", "(function(){var o=[a]; ++o[0]; return o[0]})()"},
 	"UDec":    {"(function(){var x=a; x--; return x})()", "(function(){var x=a; var y=--x; return y})()", "(function(){var o={v:a}; o.v--; return o.v})()", "(function(){var x=a; var y=x--; return x})()"},
@@ -121,11 +127,12 @@ var unScripts = map[string][]string{
 	"UShr0":   {"a>>>0", "(function(){var x=a; x>>>=0; return x})()"},
 	"ULength": {"Array.prototype.push.call({length:a})"},
 	"UAt8":    {"(function(){var r=[0,1,2,3,4,5,6,7].at(a); return r===undefined?-1:r})()"},
+	"USlice8": {"[0,1,2,3,4,5,6,7].slice(0,a).length", "(function(){var t=new Uint8Array(8); return t.subarray(0,a).length})()"},
 	"UF64":    {"new Float64Array([a])[0]", "(function(){var d=new DataView(new ArrayBuffer(8)); d.setFloat64(0,a); return d.getFloat64(0)})()"},
 }
 var unOps = []string{"UNeg", "UPlus", "UInc", "UDec", "UBnot", "UAbs", "UFloor", "UCeil", "UTrunc", "URound", "USign",
 	"UFround", "USqrt", "UClz32", "UInt8", "UUint8", "UClamp", "UInt16", "UUint16", "UInt32", "UUint32", "UOr0", "UShr0",
-	"ULength", "UAt8", "UF64"}
+	"ULength", "UAt8", "UF64", "USlice8"}
 
 var binSyms = map[string]string{"BAdd": "+", "BSub": "-", "BMul": "*", "BDiv": "/", "BMod": "%", "BAnd": "&", "BOr": "|",
 	"BXor": "^", "BShl": "<<", "BSar": ">>", "BShr": ">>>"}
@@ -164,10 +171,11 @@ func jsLiteral(f float64) string {
 	return strconv.FormatFloat(f, 'g', -1, 64)
 }
 
-var valRoutes = []string{"parseint_long", "parsefloat_long", "number_long", "pow1", "literal", "numstr", "json", "dataview", "goval_f", "goval_i", "mul1", "sub0", "div1", "negneg",
+var valRoutes = []string{"f32arr", "f32bits", "f64bits", "bigint", "parseint_long", "parsefloat_long", "number_long", "pow1", "literal", "numstr", "json", "dataview", "goval_f", "goval_i", "mul1", "sub0", "div1", "negneg",
 	"parsefloat", "unaryplus", "f64arr", "goval_f32", "goval_i32", "export"}
 var eqRoutes = []string{"raw", "literal", "numstr", "json", "dataview", "goval_f", "mul1", "sub0", "negneg", "inc", "dec", "neg", "add1", "f64arr", "half2",
-	"parseint_long", "parsefloat_long", "number_long", "parseint_long", "parsefloat_long", "number_long", "pow1"}
+	"parseint_long", "parsefloat_long", "number_long", "parseint_long", "parsefloat_long", "number_long", "pow1",
+	"f32arr", "f32bits", "f64bits", "f32bits", "f64bits", "bigint"}
 
 // produce builds a Number from the double f by the named route; nil if the route does not apply
 func produce(vm *goja.Runtime, route string, f float64) (res goja.Value) {
@@ -309,6 +317,48 @@ func produce(vm *goja.Runtime, route string, f float64) (res goja.Value) {
 			}
 		}
 		return run(src)
+	case "f32arr", "f32bits", "f64bits":
+		// an element READ from a float typed array; the bits get there through a store (f32arr) or through an
+		// integer view of the same buffer (f32bits/f64bits: any NaN bit pattern), and the element is read by index,
+		// at(), iteration, Array.from, find, slice
+		u := math.Float64bits(f)
+		mix := (u ^ (u >> 31) ^ (u >> 11)) * 0x9E3779B97F4A7C15
+		reads := []string{"t[0]", "t.at(0)", "[...t][0]", "Array.from(t)[0]", "t.values().next().value", "t.slice(0)[0]",
+			"t.find(function(){return true})", "(function(){var r; t.forEach(function(x){r=x}); return r})()", "t.subarray(0)[0]", "Array.prototype.slice.call(t)[0]"}
+		rd := reads[int(mix>>33)%len(reads)]
+		if route == "f64bits" {
+			hi, lo := uint32(u>>32), uint32(u)
+			switch int(mix>>50) % 3 {
+			case 0:
+				return run(fmt.Sprintf("(function(){var t=new Float64Array(1); var w=new Uint32Array(t.buffer); w[0]=%d; w[1]=%d; return %s})()", lo, hi, rd))
+			case 1:
+				return run(fmt.Sprintf("(function(){var t=new Float64Array(1); new BigUint64Array(t.buffer)[0]=%dn; return %s})()", u, rd))
+			default:
+				return run(fmt.Sprintf("(function(){var t=new Float64Array(1); new Uint8Array(t.buffer).set([%d,%d,%d,%d,%d,%d,%d,%d]); return %s})()",
+					byte(u), byte(u>>8), byte(u>>16), byte(u>>24), byte(u>>32), byte(u>>40), byte(u>>48), byte(u>>56), rd))
+			}
+		}
+		if !math.IsNaN(f) && float64(float32(f)) != f {
+			return nil
+		}
+		if route == "f32arr" {
+			vm.Set("p", rawValue(f))
+			return run("(function(){var t=new Float32Array(1); t[0]=p; return " + rd + "})()")
+		}
+		w := math.Float32bits(float32(f))
+		if math.IsNaN(f) { // a float32 NaN pattern derived from f's payload and sign
+			w = 0x7F800000 | uint32(u>>29)&0x7FFFFF | uint32(u>>63)<<31
+			if w&0x7FFFFF == 0 {
+				w |= 0x400000
+			}
+		}
+		return run(fmt.Sprintf("(function(){var t=new Float32Array(1); new Uint32Array(t.buffer)[0]=%d; return %s})()", w, rd))
+	case "bigint":
+		if !finite || f != math.Trunc(f) || (f == 0 && math.Signbit(f)) {
+			return nil
+		}
+		bi, _ := new(big.Float).SetFloat64(f).Int(nil)
+		return run("Number(BigInt(\"" + bi.String() + "\"))")
 	case "pow1":
 		vm.Set("p", rawValue(f))
 		return run("p**1")
@@ -433,12 +483,17 @@ func runCase(c Case) vh.Record {
 		}
 		xt, xrep, ok1 := coqNum(x)
 		yt, yrep, ok2 := coqNum(y)
-		if !ok1 || !ok2 {
-			return vh.Record{Case: raw, Coq: failTerm, Obs: obsJSON(map[string]interface{}{"x": xrep, "y": yrep}), Tags: append(tags, "notnumber")}
-		}
 		vm.Set("x", x)
 		vm.Set("y", y)
-		v, err := vm.RunString("[Object.is(x,y), Object.is(y,x), x===y, y===x, new Map([[x,1]]).get(y)===1, [x].includes(y), new Set([x]).has(y), ({[x]:1})[y]===1]")
+		if !ok1 || !ok2 {
+			// not a canonical Number (e.g. a NaN with a foreign bit pattern): record what scripts see of it
+			seen := ""
+			if w, e := vm.RunString("'is:'+Object.is(x,y)+' set:'+new Set([x,y]).size+' mapget:'+new Map([[x,1]]).get(y)"); e == nil {
+				seen = w.String()
+			}
+			return vh.Record{Case: raw, Coq: failTerm, Obs: obsJSON(map[string]interface{}{"x": xrep, "y": yrep, "seen": seen}), Tags: append(tags, "notnumber")}
+		}
+		v, err := vm.RunString("[Object.is(x,y), Object.is(y,x), x===y, y===x, new Map([[x,1]]).get(y)===1, [x].includes(y), new Set([x]).has(y), ({[x]:1})[y]===1, new Set([x,y]).size===1, (function(){var m=new Map(); m.set(x,1); m.set(y,2); return m.has(y)&&m.has(x)&&m.size===1&&m.delete(x)})()]")
 		if err != nil {
 			return vh.Record{Case: raw, Coq: failTerm, Obs: obsJSON(map[string]interface{}{"error": errClass(err)}), Tags: append(tags, "error")}
 		}
@@ -458,8 +513,31 @@ func runCase(c Case) vh.Record {
 			units[i] = strconv.Itoa(u)
 			zs[i] = strconv.Itoa(u) + "%Z"
 		}
-		pre := "var s=String.fromCharCode(" + strings.Join(units, ",") + "); "
+		pre := "var s=String.fromCharCode(" + strings.Join(units, ",") + "); var a=s; "
+		if c.Imp != 0 {
+			// the same text as a Go string handed over through the host API: > 16 bytes and non-ASCII makes it a
+			// lazily scanned importedString; nothing may touch it before the conversion under test
+			rs := make([]rune, len(c.Str))
+			for i, u := range c.Str {
+				rs[i] = rune(u)
+			}
+			gs := string(rs)
+			var sv goja.Value
+			if c.Imp == 2 {
+				sv = goja.VerifNewImported(gs)
+			} else {
+				sv = vm.ToValue(gs)
+			}
+			vm.Set("s", sv)
+			vm.Set("a", sv)
+			pre = ""
+			tags = append(tags, fmt.Sprintf("imp:%d", c.Imp), "srep:"+goja.VerifRepr(sv), fmt.Sprintf("bytes>16:%v", len(gs) > 16))
+		}
 		var src string
+		strOp := ""
+		if strings.HasPrefix(c.Op, "op:") {
+			strOp = c.Op[3:]
+		}
 		switch c.Op {
 		case "number":
 			src = "Number(s)"
@@ -475,6 +553,9 @@ func runCase(c Case) vh.Record {
 			src = "(function(){var r=Math.abs(s); return r})()"
 		default:
 			src = "Number(s)"
+			if vs, ok := unScripts[strOp]; ok {
+				src = vs[c.Var%len(vs)]
+			}
 		}
 		v, err := vm.RunString(pre + src)
 		if err != nil {
@@ -487,6 +568,9 @@ func runCase(c Case) vh.Record {
 		ctor := "CStr"
 		if c.Op == "abs" {
 			ctor = "CStrAbs"
+		}
+		if _, ok := unScripts[strOp]; ok {
+			ctor = "CStrOp " + strOp
 		}
 		return vh.Record{Case: raw, Coq: fmt.Sprintf("%s %s %s", ctor, vh.CoqList(zs), rt), Obs: obsJSON(map[string]interface{}{"src": src, "r": rep}), Tags: tags, Nontrivial: true}
 	case "leaf":
@@ -870,6 +954,27 @@ func genFloat(r *vh.Rng) float64 {
 	}
 }
 
+func isBitsRoute(s string) bool { return s == "f32arr" || s == "f32bits" || s == "f64bits" }
+
+// genNaNBits: quiet/signalling, either sign, assorted payloads, and the two "standard" patterns
+func genNaNBits(r *vh.Rng) uint64 {
+	switch r.Intn(6) {
+	case 0:
+		return math.Float64bits(math.NaN())
+	case 1:
+		return 0x7FF8000000000000
+	case 2:
+		return 0xFFF8000000000000
+	case 3:
+		return 0x7FF0000000000123
+	}
+	u := 0x7FF0000000000000 | r.U64()&0x000FFFFFFFFFFFFF | uint64(r.Intn(2))<<63
+	if u&0x000FFFFFFFFFFFFF == 0 {
+		u |= 1
+	}
+	return u
+}
+
 func genShiftCount(r *vh.Rng) float64 {
 	if r.Chance(70) {
 		return float64(r.Intn(70) - 3)
@@ -1003,7 +1108,57 @@ func genStr(r *vh.Rng) Case {
 		us = append(us, wsUnits[r.Intn(len(wsUnits))])
 	}
 	form := []string{"number", "plus", "mul1", "sub0", "negneg", "abs"}[r.Pick(40, 20, 15, 15, 5, 5)]
-	return Case{Kind: "str", Op: form, Str: us}
+	c := Case{Kind: "str", Op: form, Str: us}
+	if r.Chance(35) { // any unary operator / conversion applied to the string (ToNumber, ToInt32, ToInteger users ...)
+		c.Op = "op:" + unOps[r.Intn(len(unOps))]
+		if r.Chance(40) {
+			c.Op = "op:" + []string{"UOr0", "UAt8", "USlice8", "USign", "UInt8", "UF64", "UNeg", "UInc", "UShr0", "ULength"}[r.Intn(10)]
+		}
+		c.Var = r.Intn(6)
+	}
+	if r.Chance(35) { // the text comes from the host as a Go string, long enough to be an importedString
+		c.Imp = 1 + r.Intn(2)
+		if r.Chance(60) { // one character of each white-space / look-alike class at an edge of the numeric text
+			edge := []int{0xFEFF, 0x85, 0xA0, 0x2028, 0x2029, 0x1680, 0x3000, 0x180E, 0x200B, 0xFEFF, 0x85}[r.Intn(11)]
+			switch r.Intn(4) {
+			case 0:
+				c.Str = append([]int{edge}, c.Str...)
+			case 1:
+				c.Str = append(c.Str, edge)
+			case 2: // innermost: directly before the numeric text
+				k := 0
+				for k < len(c.Str) && (c.Str[k] <= 32 || c.Str[k] >= 128) {
+					k++
+				}
+				c.Str = append(append(append([]int{}, c.Str[:k]...), edge), c.Str[k:]...)
+			default: // directly after it
+				k := len(c.Str)
+				for k > 0 && (c.Str[k-1] <= 32 || c.Str[k-1] >= 128) {
+					k--
+				}
+				c.Str = append(append(append([]int{}, c.Str[:k]...), edge), c.Str[k:]...)
+			}
+		}
+		n := 0
+		for _, u := range c.Str {
+			switch {
+			case u < 0x80:
+				n++
+			case u < 0x800:
+				n += 2
+			default:
+				n += 3
+			}
+		}
+		for want := 17 + r.Intn(10); n < want; n++ { // pad with ASCII spaces beyond 16 bytes
+			if r.Bool() {
+				c.Str = append([]int{32}, c.Str...)
+			} else {
+				c.Str = append(c.Str, 32)
+			}
+		}
+	}
+	return c
 }
 
 func genCase(r *vh.Rng) Case {
@@ -1053,12 +1208,21 @@ func genCase(r *vh.Rng) Case {
 		}
 		return Case{Kind: "bin", Op: op, Var: r.Intn(3), A: sOf(a), B: sOf(b)}
 	case 2:
-		return Case{Kind: "val", RA: valRoutes[r.Intn(len(valRoutes))], A: sOf(genFloat(r))}
+		c := Case{Kind: "val", RA: valRoutes[r.Intn(len(valRoutes))], A: sOf(genFloat(r))}
+		if isBitsRoute(c.RA) && r.Chance(45) {
+			c.A = strconv.FormatUint(genNaNBits(r), 10)
+		}
+		return c
 	case 3:
 		rel := []string{"same", "negzero", "other"}[r.Pick(75, 10, 15)]
 		c := Case{Kind: "eq", RA: eqRoutes[r.Intn(len(eqRoutes))], RB: eqRoutes[r.Intn(len(eqRoutes))], Rel: rel, A: sOf(genFloat(r))}
 		if rel == "other" {
 			c.B = sOf(genFloat(r))
+		}
+		if isBitsRoute(c.RA) || isBitsRoute(c.RB) {
+			if r.Chance(55) {
+				c.A = strconv.FormatUint(genNaNBits(r), 10)
+			}
 		}
 		return c
 	default:
